@@ -133,6 +133,11 @@ V('c01-writer-str-normalised', 'C01', 'C01.R9',
   ('pywbem/_cim_types.py', "    elif isinstance(obj, str):\n        return obj\n",
    "    elif isinstance(obj, str):\n        return obj.replace('\\r\\n', '\\n')\n"), 'text-changed')
 
+V('c05-cimvalue-returns-same-list', 'C05', 'C05.R5',
+  (OBJ, "        return [cimvalue(v, type) for v in value]\n",
+        "        return value if all(isinstance(v, CIMType) for v in value) else [cimvalue(v, type) for v in value]\n"),
+  'aliased-list')
+
 # ---- C04 ------------------------------------------------------------------
 OPSF = 'pywbem/_cim_operations.py'
 MOCKF = 'pywbem_mock/_wbemconnection_mock.py'
